@@ -1042,4 +1042,103 @@ theorem deleteRangeLoop_eventually_const_terminates (end_ : Bytes) (L : Layout) 
         · exact ih _ _ _
       · rfl
 
+/-! ## termination of the reverse loop once the layout stays constant -/
+
+theorem locateEnd_fst_mem (L : Layout) (k : Bytes) (h : (locateEnd L k).1 ≠ []) : (locateEnd L k).1 ∈ L := by
+  induction L with
+  | nil => simp [locateEnd] at h
+  | cons s L ih =>
+    simp only [locateEnd] at h ⊢
+    split
+    · rename_i hs
+      simp only [hs, if_true] at h
+      split
+      · exact List.mem_cons_self ..
+      · rename_i h2
+        simp only [h2, if_false] at h
+        exact List.mem_cons_of_mem _ (ih h)
+    · rename_i hs
+      simp only [hs, if_false] at h
+      exact List.mem_cons_of_mem _ (ih h)
+
+/-- number of split points below `k`: the progress measure of the reverse loop -/
+def below (L : Layout) (k : Bytes) : Nat := (L.filter fun s => decide (s < k)).length
+
+theorem below_lt (L : Layout) (k k' : Bytes) (hk : k' < k) (hm : k' ∈ L) : below L k' < below L k := by
+  unfold below
+  induction L with
+  | nil => simp at hm
+  | cons s L ih =>
+    have hmono : (L.filter fun s => decide (s < k')).length ≤ (L.filter fun s => decide (s < k)).length := by
+      clear ih hm
+      induction L with
+      | nil => simp
+      | cons a t iht =>
+        simp only [List.filter_cons]
+        by_cases h1 : a < k'
+        · have : a < k := by grind
+          simp [h1, this]; exact iht
+        · by_cases h2 : a < k <;> simp [h1, h2] <;> omega
+    rcases List.mem_cons.mp hm with h | h
+    · subst h
+      have h1 : ¬ k' < k' := List.lt_irrefl k'
+      simp only [List.filter_cons, h1, hk, decide_true, decide_false, if_true, List.length_cons]
+      simp; omega
+    · have := ih h
+      simp only [List.filter_cons]
+      by_cases h1 : s < k'
+      · have : s < k := by grind
+        simp [h1, this]; omega
+      · by_cases h2 : s < k <;> simp [h1, h2] <;> omega
+
+theorem rscanLoop_const_terminates (m : Store) (f : KV → KV) (end_ : Bytes) (limit : Nat) (L : Layout) :
+    ∀ (n : Nat) (start : Bytes) (acc : List KV) (tr : STrace), below L start < n →
+      (rscanLoop m f end_ limit (List.replicate n (some L)) start acc tr).isSome = true := by
+  intro n
+  induction n with
+  | zero => intro start acc tr h; omega
+  | succ n ih =>
+    intro start acc tr h
+    simp only [List.replicate_succ, rscanLoop]
+    split
+    · rename_i hc
+      split
+      · rfl
+      · rename_i he
+        apply ih
+        have hne : start ≠ [] := by
+          intro h0; rw [h0] at hc; exact absurd hc.2 (by simp)
+        have hm := locateEnd_fst_mem L start he
+        have hlt := (locateEnd_spec L start hne).1
+        have := below_lt L start _ hlt hm
+        omega
+    · rfl
+
+theorem rscanLoop_eventually_const_terminates (m : Store) (f : KV → KV) (end_ : Bytes) (limit : Nat) (L : Layout)
+    (n : Nat) (hn : L.length < n) :
+    ∀ (pre : SScript) (start : Bytes) (acc : List KV) (tr : STrace),
+      (rscanLoop m f end_ limit (pre ++ List.replicate n (some L)) start acc tr).isSome = true := by
+  intro pre
+  induction pre with
+  | nil =>
+    intro start acc tr
+    apply rscanLoop_const_terminates
+    have : below L start ≤ L.length := List.length_filter_le _ _
+    omega
+  | cons e pre ih =>
+    intro start acc tr
+    cases e with
+    | none =>
+      simp only [List.cons_append, rscanLoop]
+      split
+      · exact ih _ _ _
+      · rfl
+    | some L' =>
+      simp only [List.cons_append, rscanLoop]
+      split
+      · split
+        · rfl
+        · exact ih _ _ _
+      · rfl
+
 end CGV.RawKV
